@@ -24,7 +24,7 @@ from optuna.storages.journal._storage import JournalOperation, JournalStorageRep
 
 from verif import core, fleet
 from verif import storage_k as K
-from verif.props import c06_gen, c06_redis
+from verif.props import c06_front, c06_gen, c06_redis
 
 RULE = (
     "2-4 JournalStorage workers on one log (file backend with either lock, or fakeredis) execute a seeded interleaving "
@@ -126,8 +126,9 @@ def run_case(cfg: str, tmp: str, seed: int, n_workers: int, n_ops: int, drv: cor
     execs = [ex0] + [K.Exec(w, share=ex0) for w in workers[1:]]
     gdrv_state = K.Gen(r, max_trials=8)
     n_known = 0
-    stats = {"rejected": 0, "records": 0, "workers_in_log": set(), "ops": [], "gen": None, "model": None}
+    stats = {"rejected": 0, "records": 0, "workers_in_log": set(), "ops": [], "gen": None, "model": None, "front": None, "front_n": 0}
     ops_log: list[Any] = []
+    new_recs: list[Any] = []  # driver-encoded records pulled since the last call began
 
     def gen_check(resp: Any, where: str) -> Any:
         """the interpreter of the handlers generated from the source must agree with the hand model on every record;
@@ -150,7 +151,9 @@ def run_case(cfg: str, tmp: str, seed: int, n_workers: int, n_ops: int, drv: cor
             n_known += 1
             stats["records"] += 1
             stats["workers_in_log"].add(log["worker_id"])
-            resp = drv.ask({"cmd": "append", "rec": rec_to_driver(log)})
+            enc = rec_to_driver(log)
+            new_recs.append(enc)
+            resp = drv.ask({"cmd": "append", "rec": enc})
             if resp.get("k") != "ok" and not property_only:
                 raise core.DriverBroken("driver rejected a record read from the real log: %s / %s" % (json.dumps(log, default=str)[:300], resp))
 
@@ -176,10 +179,25 @@ def run_case(cfg: str, tmp: str, seed: int, n_workers: int, n_ops: int, drv: cor
             if r.random() < 0.15:
                 j = r.randrange(n_workers)
                 before = (j, dump_storage(workers[j]))
+            op_real = dict(op)  # the call with the storage's own ids, for the front-end check
+            if "sid" in op_real:
+                op_real["sid"] = execs[i].rs(op["sid"])
+            if "tid" in op_real:
+                op_real["tid"] = execs[i].rt(op["tid"])
+            del new_recs[:]
             obs = execs[i].run(op)
             ops_log.append([i, op])
             pull()
             m = gen_check(drv.ask({"cmd": "sync", "worker": wid[i]}), "step %d" % step)
+            if stats["front"] is None and op["op"] in K.MUTATING and len(new_recs) == 1:
+                # the record the GENERATED front end builds for this call = the record the real call wrote; its return expression too
+                obs_real = dict(obs)
+                if obs.get("k") == "id":
+                    obs_real["n"] = (execs[i].s2r if op["op"] == "createStudy" else execs[i].t2r)[obs["n"]]
+                stats["front_n"] += 1
+                why = c06_front.front_check(drv, wid[i], op_real, new_recs[0], obs_real)
+                if why is not None:
+                    stats["front"] = "step %d %s by worker %d: %s" % (step, json.dumps(op)[:200], i, why)
             # feedback for the generator (ids advance on success)
             gdrv_state.feedback(op, obs)
             mutating = op["op"] in K.MUTATING
@@ -262,6 +280,8 @@ def run_case(cfg: str, tmp: str, seed: int, n_workers: int, n_ops: int, drv: cor
             raise Disagree("model", stats["model"])
         if stats["gen"] is not None:
             raise Disagree("gen", stats["gen"])
+        if stats["front"] is not None:
+            raise Disagree("front", stats["front"])
         return stats
     except Disagree as d:
         d.ops = ops_log  # type: ignore[attr-defined]
@@ -272,14 +292,14 @@ def run_case(cfg: str, tmp: str, seed: int, n_workers: int, n_ops: int, drv: cor
 
 def _worker(args: tuple[str, list[tuple[int, int, int]], str, bool]) -> list[dict[str, Any]]:
     cfg, cases, tmp, property_only = args
-    drv = core.Driver(c06_gen.DRIVER)
+    drv = core.Driver(c06_front.DRIVER)
     out = []
     try:
         for seed, nw, nops in cases:
             try:
                 st = run_case(cfg, tmp, seed, nw, nops, drv, property_only=property_only)
                 out.append({"seed": seed, "nw": nw, "nops": nops, "ok": True, "rejected": st["rejected"], "records": st["records"],
-                            "nwork": len(st["workers_in_log"]), "sample": st["ops"][:12], "cuts": st["cuts"], "snapshot_at": st["snapshot_at"]})
+                            "nwork": len(st["workers_in_log"]), "front_n": st["front_n"], "sample": st["ops"][:12], "cuts": st["cuts"], "snapshot_at": st["snapshot_at"]})
             except Disagree as d:
                 out.append({"seed": seed, "nw": nw, "nops": nops, "ok": False, "kind": d.kind, "why": str(d), "ops": getattr(d, "ops", [])})
             except core.DriverBroken as e:
@@ -316,6 +336,7 @@ def explore(chk: core.Check, cfgs: list[str], n_cases: int, max_ops: int, proper
                 chk.count("cases:" + cfg)
                 chk.count("records", c["records"])
                 chk.count("rejected_records", c["rejected"])
+                chk.count("front-end calls checked (record + answer)", c["front_n"])
                 chk.traces_validated += 1
             elif c["kind"] == "property":
                 chk.violation({"backend": cfg, "kind": "views-differ"}, dict(case, history=c["ops"]), c["why"])
@@ -339,9 +360,11 @@ def search(chk: core.Check) -> None:
 def main(chk: core.Check) -> int:
     chk.rule = RULE
     c06_gen.regenerate(chk)  # T-journal: Generated/JournalHandlers.lean from journal/_storage.py
+    c06_front.regenerate(chk)  # T-journalfront: Generated/JournalFront.lean (the public methods of JournalStorage)
     if not getattr(chk, "no_prove", False):
-        chk.prove(["OptunaVerif.Props.C06", c06_gen.MODULE, "OptunaVerif.Props.C06Redis"])
+        chk.prove(["OptunaVerif.Props.C06", c06_gen.MODULE, c06_front.MODULE, "OptunaVerif.Props.C06Redis"])
         c06_gen.explain_proof_failure(chk)
+        c06_front.explain_proof_failure(chk)
     check_opcodes(chk)
     quick = chk.tier == "quick"
     try:
@@ -349,6 +372,7 @@ def main(chk: core.Check) -> int:
         cfgs = ["journal-symlink", "journal-open", "journal-redis"]
         explore(chk, cfgs, 150 if quick else 2500, 60 if quick else 200)
         c06_gen.differential(chk, 60 if quick else 1500, 40)
+        c06_front.replay_witnesses(chk)
     except core.DriverBroken as e:
         chk.broke("correspondence", {"driver": str(e)[:800]})
     c06_redis.correspond(chk, chk.tier)  # the Redis backend command by command against Model/JournalRedis.lean
@@ -362,8 +386,9 @@ def replay(chk: core.Check, path: str) -> int:
     if w.get("part") == "redis":
         return c06_redis.replay_case(chk, w)
     c06_gen.regenerate(chk)  # the driver links the handlers generated from the tree under test
+    c06_front.regenerate(chk)
     core.ensure_driver()
-    drv = core.Driver(c06_gen.DRIVER)
+    drv = core.Driver(c06_front.DRIVER)
     try:
         run_case(w["cfg"], chk.tmp, w["seed"], w["workers"], w["ops"], drv, property_only=bool(w.get("property_only")))
     except Disagree as d:
